@@ -86,6 +86,15 @@ def rule_probe(ctx):
     ctx.check(good, "is_legal_move:err-iff-in-check", "Err exactly when that test is true, Ok(ply) otherwise", b.where(cb), bad_what="the Err / Ok returns are not decided by the check test alone")
 
 
+def _is_empty_board(x):
+    """Bitboard::new(0), or a constant of type Bitboard whose value is 0 (a named `EMPTY`)."""
+    if not isinstance(x, tuple):
+        return False
+    if x[0] == "call" and x[1] == "board::bitboard::Bitboard::new" and x[2] == (("const", 0, "u64"),):
+        return True
+    return x[0] == "const" and x[1] == 0 and isinstance(x[2], str) and x[2].endswith("bitboard::Bitboard")
+
+
 def rule_check_mirror(ctx):
     ix = ctx.ix
     b = ctx.body(B_ + "is_in_check")
@@ -121,6 +130,46 @@ def rule_check_mirror(ctx):
         sq = gsym.operand(ga[0][1]["args"][1])
         ok = "get_piece" in expr_str(pe) and expr_str(sq).count("next") >= 1 and expr_str(pe).count("next") >= 1
     ctx.check(ok, "get_attacked_squares:union-of-piece-attacks", "attacks |= piece.get_attacks(square, self) for the piece found on each attacker square", g.where(0), bad_what="get_attacked_squares does not OR the attacks of the piece on each attacker square")
+    if len(ga) == 1:
+        # ... for exactly the squares whose bit is set in the attackers' board, and for nothing else
+        attackers = {g.local_name(s["lhs"]["l"]) for bi, i, s in g.stmts() if mir.is_local(s["lhs"]) and
+                     any(op_place(o) is not None and fields_of(op_place(o))[-1:] in (("white_pieces",), ("black_pieces",)) for o in mir.rv_operands(s["rv"]))}
+        cons = C.constraints_for(ix, g, gsym, ga[0][0])
+        member, other = [], []
+        for c in cons:
+            e = c[3]
+            if e[0] == "discr" and "::next" in expr_str(e) and c[1] == frozenset(["Some"]):
+                continue    # the loop itself
+            ands = [x for x in walk(e) if isinstance(x, tuple) and x[0] == "call" and "BitAnd" in x[1] and len(x[2]) == 2]
+            zero = [x for x in walk(e) if _is_empty_board(x)]
+            is_eq = e[0] == "call" and ("PartialEq>::eq" in e[1] or "PartialEq::eq" in e[1])
+            is_ne = e[0] == "call" and ("PartialEq>::ne" in e[1] or "PartialEq::ne" in e[1])
+            good = False
+            if len(ands) == 1 and zero and (is_eq or is_ne):
+                a0, a1 = mir.strip_copies(mir.strip_refs(ands[0][2][0])), mir.strip_copies(mir.strip_refs(ands[0][2][1]))
+                bit = a1[0] == "bin" and a1[1].startswith("Shl") and a1[2][:2] == ("const", 1) and "::next" in expr_str(a1[3])
+                good = a0[0] == "var" and a0[1] in attackers and bit and c[1] == frozenset([is_ne])
+            (member if good else other).append(c)
+        ctx.check(len(member) == 1 and not other, "get_attacked_squares:every-attacker-and-only-attackers", "a square contributes iff its bit is set in the attackers' board (nothing else decides)", g.where(ga[0][0]),
+                  bad_what="the contribution of a square is decided by %s: not exactly `attackers & (1 << square) != 0`" % ([c[0][:80] + " in " + str(sorted(map(str, c[1]))) for c in member + other] or "nothing"))
+        # the contributions are OR-ed into what is returned, which starts empty
+        r = gsym.local(0)
+        acc_name = r[1] if r[0] == "var" else None
+        ors = []
+        for bi, t in g.calls():
+            cn = strip_generics(t.get("callee") or "")
+            if "BitOrAssign" in cn and len(t["args"]) == 2:
+                tgt = mir.strip_refs(gsym.operand(t["args"][0]))
+                val = gsym.operand(t["args"][1])
+                ors.append((tgt, val))
+            elif "BitOr" in cn and len(t["args"]) == 2 and mir.is_local(t["dest"]) and g.local_name(t["dest"]["l"]) == acc_name:
+                ors.append((mir.strip_copies(gsym.operand(t["args"][0])), gsym.operand(t["args"][1])))
+        ok_or = acc_name is not None and len(ors) == 1 and ors[0][0] == ("var", acc_name) and any(isinstance(x, tuple) and x[0] == "call" and x[1] == "board::piece::Kind::get_attacks" for x in walk(ors[0][1]))
+        inits = [gsym.rvalue(rv) if rv.get("k") != "call" else ("call", strip_generics(mir.callee_name(rv["t"])), tuple(gsym.operand(a) for a in rv["t"]["args"]))
+                 for l in range(len(g.locals)) if g.local_name(l) == acc_name for (db, di, rv) in g.defs().get(l, []) if not g.in_loop(db)]
+        ok_init = len(inits) == 1 and _is_empty_board(inits[0])
+        ctx.check(ok_or and ok_init, "get_attacked_squares:accumulates-from-empty", "the result starts as the empty board and each contribution is OR-ed into it", g.where(0),
+                  bad_what="the returned board is not `empty | contribution | ..` (accumulator %s, OR sites %d, initial value %s)" % (acc_name, len(ors), [expr_str(x)[:40] for x in inits]))
 
 
 def rule_castle_pre(ctx):
